@@ -501,6 +501,32 @@ theorem step_checks (cfg : Cfg) (w : World) (r : PPath) (hr : cfg.root = some r)
     cases hk : w.kind q <;> by_cases hv : q ∈ visited <;> cases ht : cfg.trackerRaises <;>
       simp [step, loaderResolve, h, hk, hv, ht] <;> exact ⟨hq.1, hq.2, hfix⟩
 
+/-- the order-free envelope `runAll` (the loop that drops a failing item instead of stopping; what the harness
+    compares a real run with) extends the model's run: same events up to the point where `run` stops, and the
+    exception `run` stops with is one the envelope meets -/
+theorem run_prefix_runAll (cfg : Cfg) (w : World) :
+    ∀ (n : Nat) (stack : List Item) (visited : List Segs),
+      (run cfg w n stack visited).1 <+: (runAll cfg w n stack visited).1 ∧
+      ∀ e, (run cfg w n stack visited).2 = .aborted e → e ∈ (runAll cfg w n stack visited).2.1 := by
+  intro n
+  induction n with
+  | zero => intro stack visited; cases stack <;> simp [run, runAll]
+  | succ n ih =>
+    intro stack visited
+    cases stack with
+    | nil => simp [run, runAll]
+    | cons it stack =>
+      simp only [run, runAll]
+      cases hstep : step cfg w it stack visited with
+      | mk tr res =>
+        cases res with
+        | error e => simp
+        | ok x =>
+          obtain ⟨s', v'⟩ := x
+          obtain ⟨h1, h2⟩ := ih s' v'
+          simp
+          exact ⟨h1, h2⟩
+
 /-! ## the property -/
 
 /-- **no_access_before_check** — over a whole work-list run with a root folder configured: every event that
